@@ -55,9 +55,19 @@ Fit(t, n) ==
   IF InRange(t, n) THEN Val(t, n)
   ELSE IF t \in {"I", "L"} THEN Overflow ELSE Inexact
 
+\* A fractional constant  +-(w + f/10)  with f in 1..9 \ {5} (ties are excluded: "rounding
+\* to nearest" does not fix them).  It exists only to be converted to a whole-number type;
+\* anything else done with it leaves the exact domain.
+FracVal(ft, w, f, neg) == [t |-> "F", ft |-> ft, w |-> w, f |-> f, neg |-> neg]
+IsFrac(x) == x.t = "F"
+RoundFrac(x) == LET m == IF x.f < 5 THEN x.w ELSE x.w + 1 IN IF x.neg THEN 0 - m ELSE m
+
 \* Conversion on assignment / parameter passing / READ.
 Cast(t, x) ==
   IF IsErr(x) THEN x
+  ELSE IF IsFrac(x) THEN
+    (IF t \in {"I", "L"} THEN (IF x.w >= MaxL THEN Overflow ELSE Fit(t, RoundFrac(x)))
+     ELSE IF t \in {"$", "U"} THEN TypeMismatch ELSE Inexact)
   ELSE IF t = "U" THEN (IF x.t = "U" THEN x ELSE TypeMismatch)
   ELSE IF x.t = "U" THEN TypeMismatch
   ELSE IF t = "$" THEN (IF IsStr(x) THEN x ELSE TypeMismatch)
@@ -135,6 +145,7 @@ IntOperand(x) == IF InRange("I", x.v) THEN Val("I", x.v) ELSE Inexact
 Arith(op, x, y) ==
   IF IsErr(x) THEN x
   ELSE IF IsErr(y) THEN y
+  ELSE IF IsFrac(x) \/ IsFrac(y) THEN Inexact
   ELSE IF op = "+" /\ IsStr(x) /\ IsStr(y) THEN Val("$", x.v \o y.v)
   ELSE IF op \in RelOps THEN
     (IF IsStr(x) # IsStr(y) THEN TypeMismatch ELSE Bool(RelHolds(op, Cmp3(x, y))))
@@ -164,6 +175,7 @@ Arith(op, x, y) ==
 
 Neg(x) ==
   IF IsErr(x) THEN x
+  ELSE IF IsFrac(x) THEN Inexact
   ELSE IF IsStr(x) THEN TypeMismatch
   ELSE IF x.v = MinL THEN (IF x.t = "L" THEN Overflow ELSE Inexact)
   ELSE Fit(x.t, -x.v)
@@ -171,6 +183,7 @@ Neg(x) ==
 \* NOT n = -n - 1 on whole numbers (two's complement), type preserved
 Not(x) ==
   IF IsErr(x) THEN x
+  ELSE IF IsFrac(x) THEN Inexact
   ELSE IF IsStr(x) THEN TypeMismatch
   ELSE Fit(x.t, (0 - 1) - x.v)
 
